@@ -69,6 +69,10 @@ def kwargs_of(e):
         kw["route_code"] = route_of(e["route"])
     if e["ts"] != "none":
         kw["timestamp"] = ts_of(e["ts"])
+    elif e["rest"] != "plain" or e["route"]:
+        # a missing timestamp is also supplied as an explicit None (e.g. status(**event) for an event dict
+        # taken from a queue), not only by omitting the keyword
+        kw["timestamp"] = None
     kw.update(REST[e["rest"]])
     return kw
 
